@@ -86,5 +86,9 @@ example : endModes = .err "invalid_duration" :: .panic "int_div_zero" :: endMode
 theorem payout_phase_never_fails (w : World) (hs : QSorted w) (hn : NonnegQ w) (hu : UsersOnly w) (hc : Cover w) :
     ∃ w', completeUnbondings w = (.ok (), w') := completeUnbondings_ok w hs hn hu hc
 
+/-- fact (regenerated from x/alliance/abci.go on every run): the end blocker's body, statement by statement — no early return
+    before the six phases, the phases in this order -/
+theorem end_blocker_body_as_modelled : Generated.endBlockStatements = ["defer telemetry.ModuleMeasureSince(types.ModuleName, ctx.BlockTime(), telemetry.MetricKeyEndBlocker)", "k.CompleteRedelegations(ctx)", "if err := k.CompleteUnbondings(ctx); err != nil {", "assets := k.GetAllAssets(ctx)", "if err := k.InitializeAllianceAssets(ctx, assets); err != nil {", "if _, err := k.DeductAssetsHook(ctx, assets); err != nil {", "if err := k.RewardWeightChangeHook(ctx, assets); err != nil {", "if err := k.RebalanceHook(ctx, assets); err != nil {", "return nil"] := rfl
+
 end C17
 end Alliance
